@@ -1,16 +1,17 @@
 package props
 
 import (
-	"math"
 	"bytes"
 	"errors"
 	"fmt"
 	"hash/fnv"
 	"io"
+	"math"
 	"net"
 	"sync"
 	"sync/atomic"
 	"testing"
+	"testing/synctest"
 	"time"
 
 	"github.com/fiorix/go-diameter/v4/diam"
@@ -504,6 +505,125 @@ func TestC07(t *testing.T) {
 		}
 	})
 	rec.Exhaustive("retry-scripts")
+	rec.Suite("stalled-transport", 2*4*3*2, func(c *ev.Case) {
+		sctpConn := c.I%2 == 0
+		stallAt := (c.I / 2) % 4
+		retries := []uint{0, 1, 3}[(c.I/8)%3]
+		timeout := []time.Duration{40 * time.Millisecond, time.Second}[(c.I/24)%2]
+		stall := 10 * timeout
+		c.Class("stalled-transport/sctp=%v/at=%d/retries=%d", sctpConn, stallAt, retries)
+		leak := runBubbleWD(t, rec, c, 60*time.Second, func() { runC07Stalled(c, ctx, timeout, stall, stallAt, retries, sctpConn) })
+		if leak != "" && !c.Failed() {
+			c.Fail(ev.Sig{"op": "bubble-leak", "via": "stalled-transport"}, nil, nil, "goroutines left blocked after the scenario: %s", leak)
+		}
+	})
+	rec.Exhaustive("stalled-transport")
+}
+
+// runC07Stalled: an association accepted by a Server with a WriteTimeout; the transport's send
+// blocks for longer than that timeout in the middle of the traffic and then goes on.  A writer
+// that asked for retries must still see each of its messages on the wire exactly once.
+func runC07Stalled(c *ev.Case, ctx *lib.Ctx, timeout, stall time.Duration, stallAt int, retries uint, sctpConn bool) {
+	sig := func(op string) ev.Sig { return ev.Sig{"op": op, "via": "stalled-transport", "sctp": sctpConn} }
+	const nMsgs = 4
+	var conn diam.Conn
+	connCh := make(chan diam.Conn, 1)
+	h := diam.HandlerFunc(func(dc diam.Conn, m *diam.Message) {
+		select {
+		case connCh <- dc:
+		default:
+		}
+	})
+	srv := &diam.Server{Handler: h, Dict: ctx.Parser, WriteTimeout: timeout}
+	ln := memnet.NewListener()
+	go srv.Serve(ln)
+	defer ln.Close()
+	var assoc *sctpmem.Assoc
+	var mc *memnet.Conn
+	hello, _ := c07Message(ctx, 0x7fff, 0, 60)
+	hb, _ := hello.Serialize()
+	wseq := 0
+	if sctpConn {
+		assoc = sctpmem.New()
+		assoc.WriteDelay = func(b []byte) time.Duration {
+			wseq++
+			if wseq-1 == stallAt {
+				return stall
+			}
+			return 0
+		}
+		msc := diam.VerifNewSCTPConn(assoc)
+		defer diam.VerifRelease(msc)
+		ln.Offer(msc)
+		assoc.Feed(3, hb)
+	} else {
+		mc = memnet.NewConn()
+		mc.Script = func(seq int, b []byte) memnet.Outcome {
+			o := memnet.Outcome{Accept: -1, StallAt: -1}
+			if seq == stallAt {
+				o.StallAt, o.StallFor = len(b)/2, stall
+			}
+			return o
+		}
+		ln.Offer(mc)
+		mc.Feed(hb)
+	}
+	synctest.Wait()
+	select {
+	case conn = <-connCh:
+	default:
+		c.Fail(sig("setup"), nil, nil, "the server did not dispatch the first message")
+		return
+	}
+	var want [][]byte
+	failedAt, failedErr := -1, error(nil)
+	for i := 0; i < nMsgs; i++ {
+		m, _ := c07Message(ctx, 1, i, []int{60, 1000, 4200, 20000}[i%4])
+		img, _ := m.Serialize()
+		want = append(want, img)
+		var err error
+		if sctpConn {
+			_, err = m.WriteToStreamWithRetry(conn, retries, uint(i%3))
+		} else {
+			_, err = m.WriteToWithRetry(conn, retries)
+		}
+		if err != nil {
+			// the writer was told about a failure (a transport that enforces the write timeout
+			// would do that): nothing more is written; what reached the transport of this
+			// message must be a prefix of it, once
+			failedAt, failedErr = i, err
+			break
+		}
+	}
+	time.Sleep(4 * stall) // virtual: anything still in flight lands
+	synctest.Wait()
+	var got []byte
+	if sctpConn {
+		for _, w := range assoc.Writes() {
+			got = append(got, w.Data...)
+		}
+	} else {
+		got = mc.Written()
+	}
+	exp := bytes.Join(want, nil)
+	ok := bytes.Equal(got, exp)
+	if failedAt >= 0 {
+		whole := bytes.Join(want[:failedAt], nil)
+		ok = bytes.HasPrefix(got, whole) && bytes.HasPrefix(want[failedAt], got[len(whole):])
+	}
+	if !ok {
+		msgs, rest := peer.SplitMessages(got)
+		c.Fail(sig("stalled-bytes"), nil, nil, "%d messages were written while the transport blocked once for %v (WriteTimeout %v, retries %d; write %d returned %v): the transport saw %d whole messages and %d stray bytes (%d bytes; the messages make %d)",
+			len(want), stall, timeout, retries, failedAt, failedErr, len(msgs), len(rest), len(got), len(exp))
+		return
+	}
+	c.Event("stalled_transport_cases", 1)
+	if sctpConn {
+		assoc.FeedEOF()
+	} else {
+		mc.FeedEOF()
+	}
+	synctest.Wait()
 }
 
 func descScript(sc interface{}) string { return fmt.Sprintf("%+v", sc) }
